@@ -321,7 +321,7 @@ def afterCompile (S : Server) (e : SEv) (ag : Option Payload) (r : ConState × M
   | (_, .error err) =>
     ({ S with txErr := true }, { outcome := .rejected (S.relabel err), against := ag })
   | (c3, .ok u) =>
-    let r := ({ S with last := some c3 } : Server).run u e.bf
+    let r := ({ S with last := some c3 } : Server).run u e.bf e.stay
     (r.1, { outcome := r.2, against := ag, unit := some u })
 
 theorem step_inTx_unfold {S : Server} {c : ConState} {t : Txn} {p : PSpec}
@@ -588,7 +588,7 @@ theorem stepOk_rollback_inTx {S : Server} {c : ConState} {t : Txn} {p : PSpec}
     simpa using hcov
   have hspec : p.step e = (PSpec.out p.base, .ok) := by
     unfold PSpec.step
-    by_cases hf : p.failed = true <;> simp [h.pin, hf, hs]
+    by_cases hf : p.failed = true <;> simp [h.pin, hf, hs, hbf]
   have hbase := h.base
   by_cases hf : p.failed = true
   · have her : S.txErr = true := by rw [← h.pfail]; exact hf
@@ -609,7 +609,8 @@ theorem stepOk_rollback_inTx {S : Server} {c : ConState} {t : Txn} {p : PSpec}
 
 
 theorem stepOk_commit_inTx {S : Server} {c : ConState} {t : Txn} {p : PSpec}
-    (hl : S.last = some c) (h : InTx S c t p) (e : SEv) (hs : e.stmt = .commit) : StepOk S p e := by
+    (hl : S.last = some c) (h : InTx S c t p) (e : SEv) (hs : e.stmt = .commit)
+    (hcov : p.covers e = true) : StepOk S p e := by
   obtain ⟨c2, t2, hN, hstep⟩ := step_inTx_unfold hl h e
   rw [hs] at hstep
   by_cases hf : p.failed = true
@@ -626,13 +627,17 @@ theorem stepOk_commit_inTx {S : Server} {c : ConState} {t : Txn} {p : PSpec}
     have himp : t2.implicit = false := hN.expl
     by_cases hbf : e.bf = true
     · -- a failed COMMIT ends the transaction: `abort_tx()`
+      have hstay : e.stay = false := by
+        unfold PSpec.covers at hcov
+        simp only [hs, hbf, Bool.not_true, Bool.false_or, Bool.and_true] at hcov
+        simpa using hcov
       have hspec : p.step e = (PSpec.out p.base, .failed) := by
-        unfold PSpec.step; simp [h.pin, hf', hs, hbf]
+        unfold PSpec.step; simp [h.pin, hf', hs, hbf, hstay]
       refine stepOk_of _ hstep
         (({ S with last := some (initCurrentTx c2 t2.current.pl), txErr := true } : Server).resetTx)
         .failed (some t2.current.pl) ?_ ?_ ?_ _ _ hspec ?_ rfl (fun _ _ => hexp) <;>
         try simp [compileStmt, commitTx, hN.inv1.cur, himp, afterCompile, Server.run, her, Server.execute,
-          Server.start, hbf, h.sin]
+          Server.start, hbf, hstay, h.sin]
       rw [hbase]; exact rel_out _ rfl rfl rfl
     · have hbf' : e.bf = false := by simpa using hbf
       have hspec : p.step e = (PSpec.out p.cur, .ok) := by
@@ -1332,7 +1337,7 @@ theorem step_out_unfold (S : Server) (hin : S.inTx = false) (e : SEv) :
       | (_, .error err) =>
         (S, { outcome := .rejected err, against := some ⟨S.uschema, S.gschema, S.aliases, S.config⟩ })
       | (c3, .ok u) =>
-        let r := ({ S with last := if u.txId.isSome then some c3 else none } : Server).run u e.bf
+        let r := ({ S with last := if u.txId.isSome then some c3 else none } : Server).run u e.bf e.stay
         (r.1, { outcome := r.2, against := some ⟨S.uschema, S.gschema, S.aliases, S.config⟩, unit := some u }) := by
   unfold Server.step Server.stepOn
   simp only [Server.compileOn, hin, Bool.false_eq_true, ↓reduceIte, compileFresh]
@@ -1359,7 +1364,7 @@ theorem stepOk_out {S : Server} {p : PSpec} (hR : Rel S p) (hin : S.inTx = false
   have hpbase : p.base = pl := by rw [hp]; rfl
   have hexp : some pl = some p.exposed := by simp [PSpec.exposed, hpin, hpbase]
   have hrelS : Rel S p := by unfold Rel; simp [hin, her, hsps, hp]
-  have hbfcov : e.bf = true → (match e.stmt with | .upd _ | .query | .commit => true | _ => false) = true := by
+  have hbfcov : e.bf = true → (match e.stmt with | .upd _ | .query => true | .commit => !e.stay | _ => false) = true := by
     intro hb
     unfold PSpec.covers at hcov
     simp only [hb, Bool.not_true, Bool.false_or, Bool.and_eq_true] at hcov
@@ -1393,7 +1398,7 @@ theorem stepOk_out {S : Server} {p : PSpec} (hR : Rel S p) (hin : S.inTx = false
         simp [hs, compileStmt, startTx, hcur, hcf', c3, t3, pl]
       rw [hcomp] at hstep
       have hrun : (({ S with last := if (({ txId := some (e.t0 + 1) } : QUnit).txId.isSome) then some c3 else none } :
-            Server).run { txId := some (e.t0 + 1) } e.bf) = (S3, .ok) := by
+            Server).run { txId := some (e.t0 + 1) } e.bf e.stay) = (S3, .ok) := by
         simp [Server.run, her, Server.execute, Server.start, hbf, Server.onSuccess, S3]
       simp only [hrun] at hstep
       refine stepOk_of _ hstep S3 .ok (some pl) rfl rfl rfl _ _ hspec ?_ rfl (fun _ _ => hexp)
@@ -1434,7 +1439,7 @@ theorem stepOk_out {S : Server} {p : PSpec} (hR : Rel S p) (hin : S.inTx = false
       cases hb : e.bf with
       | false => rfl
       | true => have := hbfcov hb; simp [hs] at this
-    have hspec : p.step e = (p, .ok) := by unfold PSpec.step; simp [hpin, hs]
+    have hspec : p.step e = (p, .ok) := by unfold PSpec.step; simp [hpin, hs, hbf]
     let S3 : Server := ({ S with last := none } : Server).resetTx
     refine stepOk_of _ hstep S3 .ok (some pl) ?_ ?_ ?_ _ _ hspec ?_ rfl (fun _ _ => hexp)
     · simp [hs, compileStmt, rollbackTx, hcur, pl, Server.run, her, Server.execute, Server.start, hbf,
@@ -1509,7 +1514,7 @@ theorem stepOk_all {S : Server} {p : PSpec} (hR : Rel S p) (e : SEv) (hcov : p.c
     obtain ⟨c, t, hl, h⟩ := hR'
     cases hs : e.stmt with
     | start => exact stepOk_start_inTx hl h e hs
-    | commit => exact stepOk_commit_inTx hl h e hs
+    | commit => exact stepOk_commit_inTx hl h e hs hcov
     | rollback => exact stepOk_rollback_inTx hl h e hs hcov
     | declare n => exact stepOk_declare_inTx hl h e n hs hcov
     | release n => exact stepOk_release_inTx hl h e n hs hcov
